@@ -164,7 +164,7 @@ def check(rep, tier):
         strong.append(dict(arr="square", shape=shape, k={"int": 300, "ext": 0, "s0": 10, "s_sigma_rel": 0}, dt=2.0, T_init=None, over={}, initIce="indirect",
                            seed=seed, seed_v=rng.randint(0, 10 ** 6) if seed else 2024, prog=dict(start=5, end=-45, rate=0.5 / 60, holds=[], t_tot=12000.0, dt=2.0), cnTemp=None, thr=0.9))
     for ri in range(nruns + len(strong)):
-        cfg = strong[ri - nruns] if ri >= nruns else fr.gen_config(rng, max_vials=30 if tier == "quick" else 100, max_steps=700)
+        cfg = strong[ri - nruns] if ri >= nruns else fr.gen_config(rng, max_vials=30 if tier == "quick" else 100, max_steps=700, cn=(ri % 4 == 1))
         Nv = cfg["shape"][0] * cfg["shape"][1] * cfg["shape"][2]
         store = "all" if ri % 3 else rng.choice(["edge", "corner", "uniform_3", [0], "all", (Nv - 1, 0, Nv // 2), [Nv // 2, 0, Nv // 2, Nv - 1]])
         if store != "all" and cfg["shape"][0] * cfg["shape"][1] < 4:
